@@ -1889,10 +1889,11 @@ class AstEval:
         kwargs = {}
         for kw_arg in arg.keywords:
             if kw_arg.arg is None:
-                for key, val in dict(await self.aeval(kw_arg.value)).items():
+                mapping = await self.aeval(kw_arg.value)
+                for key in mapping.keys():
                     if key in kwargs:
                         raise TypeError(f"got multiple values for keyword argument '{key}'")
-                    kwargs[key] = val
+                    kwargs[key] = mapping[key]
             else:
                 if kw_arg.arg in kwargs:
                     raise TypeError(f"got multiple values for keyword argument '{kw_arg.arg}'")
